@@ -40,14 +40,16 @@ theorem sel_put {α β} (pyr : Bool) (nmaxpyr nworld naconmax njmax : Nat) (zp :
   rw [List.take_of_length_le (by rw [hl, List.length_append, hl, Nat.mul_comm]; omega)]
   rw [filter_flatMap_range h.cons (putSlot pyr nmaxpyr) (fun c => c.worldid) (fun _ _ => rfl)]
   simp [hw]
-/-- MuJoCo's layout invariant for included contacts: consecutive blocks starting at `a` -/
+/-- MuJoCo's layout invariant: an excluded contact has address -1 and no rows; the included contacts' blocks are
+    consecutive, in contact order, starting at `a`, each with at least one row -/
 def contiguous {α} (pyr : Bool) : Nat → List (HCon α) → Prop
   | _, [] => True
-  | a, c :: cs => c.adr = Int.ofNat a ∧ contiguous pyr (a + ndim pyr c.dim) cs
+  | a, c :: cs => (c.adr = -1 ∧ contiguous pyr a cs) ∨
+                  (c.adr = Int.ofNat a ∧ 0 < ndim pyr c.dim ∧ contiguous pyr (a + ndim pyr c.dim) cs)
 
 def totalRows {α} (pyr : Bool) : List (HCon α) → Nat
   | [] => 0
-  | c :: cs => ndim pyr c.dim + totalRows pyr cs
+  | c :: cs => (if c.adr = -1 then 0 else ndim pyr c.dim) + totalRows pyr cs
 
 theorem arange_succ (n : Nat) : arange (n + 1) = arange n ++ [Int.ofNat n] := by
   simp [arange, List.range_succ]
@@ -61,33 +63,57 @@ theorem arange_add (a b : Nat) : arange (a + b) = arange a ++ (arange b).map (fu
 
 theorem length_arange (n : Nat) : (arange n).length = n := by simp [arange]
 
-theorem blk_putSlot {α} (pyr : Bool) (nmaxpyr j : Nat) (c : HCon α) (h1 : c.adr ≠ -1) :
+theorem inactive_putSlot_excl {α} (pyr : Bool) (nmaxpyr j : Nat) (c : HCon α) (hp : 0 < nmaxpyr) (h1 : c.adr = -1) :
+    inactive (putSlot pyr nmaxpyr j c) = true := by
+  obtain ⟨n, rfl⟩ : ∃ n, nmaxpyr = n + 1 := ⟨nmaxpyr - 1, by omega⟩
+  simp [inactive, putSlot, putAdr, h1, List.replicate_succ]
+
+theorem inactive_putSlot_incl {α} (pyr : Bool) (nmaxpyr j a : Nat) (c : HCon α) (h1 : c.adr = Int.ofNat a) (hnd : 0 < ndim pyr c.dim) :
+    inactive (putSlot pyr nmaxpyr j c) = false := by
+  obtain ⟨n, hn⟩ : ∃ n, ndim pyr c.dim = n + 1 := ⟨ndim pyr c.dim - 1, by omega⟩
+  have hne : c.adr ≠ -1 := by rw [h1]; simp
+  simp only [inactive, putSlot, putAdr, hne, if_false, hn, arange, List.range_succ_eq_map, List.map_cons, List.cons_append]
+  rw [h1]; simp
+
+theorem blk_putSlot_excl {α} (pyr : Bool) (nmaxpyr j : Nat) (c : HCon α) (hp : 0 < nmaxpyr) (h1 : c.adr = -1) :
+    blk pyr (putSlot pyr nmaxpyr j c) = [] := by
+  simp [blk, inactive_putSlot_excl pyr nmaxpyr j c hp h1]
+
+theorem blk_putSlot {α} (pyr : Bool) (nmaxpyr j a : Nat) (c : HCon α) (h1 : c.adr = Int.ofNat a) (hnd : 0 < ndim pyr c.dim) :
     blk pyr (putSlot pyr nmaxpyr j c) = (arange (ndim pyr c.dim)).map (fun k => c.adr + k) := by
-  simp only [blk, putSlot, putAdr, h1, if_false]
+  have hne : c.adr ≠ -1 := by rw [h1]; simp
+  simp only [blk, inactive_putSlot_incl pyr nmaxpyr j a c h1 hnd, Bool.false_eq_true, if_false]
+  simp only [putSlot, putAdr, hne, if_false]
   rw [List.take_append_of_le_length (by simp [length_arange])]
   rw [List.take_of_length_le (by simp [length_arange])]
 
-theorem flatMap_blk_put {α} (pyr : Bool) (nmaxpyr j : Nat) (cs : List (HCon α)) (a : Nat) (hc : contiguous pyr a cs) :
+theorem flatMap_blk_put {α} (pyr : Bool) (nmaxpyr j : Nat) (hp : 0 < nmaxpyr) (cs : List (HCon α)) (a : Nat) (hc : contiguous pyr a cs) :
     arange a ++ (cs.map (putSlot pyr nmaxpyr j)).flatMap (blk pyr) = arange (a + totalRows pyr cs) := by
   induction cs generalizing a with
   | nil => simp [totalRows]
   | cons c cs ih =>
-    obtain ⟨h1, h2⟩ := hc
-    have hne : c.adr ≠ -1 := by rw [h1]; simp
-    rw [List.map_cons, List.flatMap_cons, blk_putSlot pyr nmaxpyr j c hne, ← List.append_assoc, h1, ← arange_add, ih _ h2]
-    simp [totalRows, Nat.add_assoc]
+    rcases hc with ⟨h1, h2⟩ | ⟨h1, hnd, h2⟩
+    · rw [List.map_cons, List.flatMap_cons, blk_putSlot_excl pyr nmaxpyr j c hp h1, List.nil_append, ih _ h2]
+      simp [totalRows, h1]
+    · have hne : c.adr ≠ -1 := by rw [h1]; simp
+      rw [List.map_cons, List.flatMap_cons, blk_putSlot pyr nmaxpyr j a c h1 hnd, ← List.append_assoc, h1, ← arange_add, ih _ h2]
+      simp [totalRows, hne, Nat.add_assoc]
 
-theorem getCons_put {α} (pyr : Bool) (nmaxpyr j : Nat) (cs : List (HCon α)) (a : Nat) (hc : contiguous pyr a cs) :
-    List.zipWith (fun (c : DCon α) (a : Nat) => (⟨c.dim, Int.ofNat a, c.pay⟩ : HCon α)) (cs.map (putSlot pyr nmaxpyr j))
+theorem getCons_put {α} (pyr : Bool) (nmaxpyr j : Nat) (hp : 0 < nmaxpyr) (cs : List (HCon α)) (a : Nat) (hc : contiguous pyr a cs) :
+    List.zipWith (fun (c : DCon α) (a : Int) => (⟨c.dim, a, c.pay⟩ : HCon α)) (cs.map (putSlot pyr nmaxpyr j))
       (adrOrdered pyr a (cs.map (putSlot pyr nmaxpyr j))) = cs := by
   induction cs generalizing a with
   | nil => simp [adrOrdered]
   | cons c cs ih =>
-    obtain ⟨h1, h2⟩ := hc
-    simp only [List.map_cons, adrOrdered, List.zipWith_cons_cons]
-    have := ih _ h2
-    simp only [putSlot] at this ⊢
-    rw [this, ← h1]
+    rcases hc with ⟨h1, h2⟩ | ⟨h1, hnd, h2⟩
+    · simp only [List.map_cons, adrOrdered, inactive_putSlot_excl pyr nmaxpyr j c hp h1, if_true, List.zipWith_cons_cons]
+      have := ih _ h2
+      simp only [putSlot] at this ⊢
+      rw [this, ← h1]
+    · simp only [List.map_cons, adrOrdered, inactive_putSlot_incl pyr nmaxpyr j a c h1 hnd, Bool.false_eq_true, if_false, List.zipWith_cons_cons]
+      have := ih _ h2
+      simp only [putSlot] at this ⊢
+      rw [this, ← h1]
 
 theorem pyGetAll_append {β} (l : List β) (a b : List Int) :
     pyGetAll l (a ++ b) = match pyGetAll l a, pyGetAll l b with
@@ -111,14 +137,14 @@ theorem pyGetAll_arange {β} (l : List β) (n : Nat) (hn : n ≤ l.length) : pyG
     rw [List.take_add_one, this]
     simp only [pyGetAll, pyGet_ofNat, this, Option.toList_some]
 
-/-- what MuJoCo guarantees about an MjData in which no contact is excluded -/
+/-- what MuJoCo guarantees about an MjData (excluded contacts allowed) -/
 structure Host.WF {α β} (pyr : Bool) (njmax : Nat) (h : Host α β) : Prop where
   contig : contiguous pyr (h.ne + h.nf + h.nl) h.cons
   nrows : h.rows.length = h.ne + h.nf + h.nl + totalRows pyr h.cons
   fits : h.rows.length ≤ njmax
 
 theorem efcIdx_put {α β} (pyr : Bool) (nmaxpyr nworld naconmax njmax : Nat) (zp : α) (zr : β) (h : Host α β) (w : Nat)
-    (hw : w < nworld) (wf : h.WF pyr njmax) :
+    (hw : w < nworld) (hp : 0 < nmaxpyr) (wf : h.WF pyr njmax) :
     efcIdx pyr njmax (put pyr nmaxpyr nworld naconmax njmax zp zr h) w = arange h.rows.length := by
   have hsel := sel_put pyr nmaxpyr nworld naconmax njmax zp zr h w hw
   have hn : nefcOf (put pyr nmaxpyr nworld naconmax njmax zp zr h) njmax w = h.rows.length := by
@@ -127,21 +153,21 @@ theorem efcIdx_put {α β} (pyr : Bool) (nmaxpyr nworld naconmax njmax : Nat) (z
   unfold efcIdx efcIdxFull
   rw [hsel, hn, hl]
   split
-  · rw [flatMap_blk_put pyr nmaxpyr w h.cons _ wf.contig, ← wf.nrows]
+  · rw [flatMap_blk_put pyr nmaxpyr w hp h.cons _ wf.contig, ← wf.nrows]
     exact List.take_of_length_le (by simp [length_arange])
   · exact List.take_of_length_le (by simp [length_arange])
 
 theorem get_put {α β} (pyr : Bool) (nmaxpyr nworld naconmax njmax : Nat) (zp : α) (zr : β) (h : Host α β) (w : Nat)
-    (hw : w < nworld) (wf : h.WF pyr njmax) :
+    (hw : w < nworld) (hp : 0 < nmaxpyr) (wf : h.WF pyr njmax) :
     get pyr njmax (put pyr nmaxpyr nworld naconmax njmax zp zr h) w = some h.got := by
-  have hidx := efcIdx_put pyr nmaxpyr nworld naconmax njmax zp zr h w hw wf
+  have hidx := efcIdx_put pyr nmaxpyr nworld naconmax njmax zp zr h w hw hp wf
   have hsel := sel_put pyr nmaxpyr nworld naconmax njmax zp zr h w hw
   have hn : nefcOf (put pyr nmaxpyr nworld naconmax njmax zp zr h) njmax w = h.rows.length := by
     simp only [nefcOf, put]; exact Nat.min_eq_left wf.fits
   have hrows : (put pyr nmaxpyr nworld naconmax njmax zp zr h).rows w = h.rows ++ List.replicate (njmax - h.rows.length) zr := rfl
   have hJ : getJRows pyr njmax (put pyr nmaxpyr nworld naconmax njmax zp zr h) w = some h.rows := by
     unfold getJRows
-    rw [hidx, hn, hrows, List.take_left', pyGetAll_arange _ _ (Nat.le_refl _), List.take_length]
+    rw [hidx, hn, hrows, if_pos (length_arange _), List.take_left', pyGetAll_arange _ _ (Nat.le_refl _), List.take_length]
     rfl
   have hR : getRows pyr njmax (put pyr nmaxpyr nworld naconmax njmax zp zr h) w = some h.rows := by
     unfold getRows getRowsOf
@@ -150,16 +176,16 @@ theorem get_put {α β} (pyr : Bool) (nmaxpyr nworld naconmax njmax : Nat) (zp :
   have hC : getCons pyr (put pyr nmaxpyr nworld naconmax njmax zp zr h) w = h.cons := by
     unfold getCons
     rw [hsel]
-    exact getCons_put pyr nmaxpyr w h.cons _ wf.contig
+    exact getCons_put pyr nmaxpyr w hp h.cons _ wf.contig
   unfold get
   rw [hJ, hR, hC]
   rfl
 
 /-- round trip of a column stored with ANY padding (efc.D, efc.state: njmax_pad entries) -/
 theorem getRowsOf_put {α β γ} (pyr : Bool) (nmaxpyr nworld naconmax njmax : Nat) (zp : α) (zr : β) (h : Host α β) (w : Nat)
-    (hw : w < nworld) (wf : h.WF pyr njmax) (col pad : List γ) (hcol : col.length = h.rows.length) :
+    (hw : w < nworld) (hp : 0 < nmaxpyr) (wf : h.WF pyr njmax) (col pad : List γ) (hcol : col.length = h.rows.length) :
     getRowsOf pyr njmax (put pyr nmaxpyr nworld naconmax njmax zp zr h) w (col ++ pad) = some col := by
-  have hidx := efcIdx_put pyr nmaxpyr nworld naconmax njmax zp zr h w hw wf
+  have hidx := efcIdx_put pyr nmaxpyr nworld naconmax njmax zp zr h w hw hp wf
   have hn : nefcOf (put pyr nmaxpyr nworld naconmax njmax zp zr h) njmax w = h.rows.length := by
     simp only [nefcOf, put]; exact Nat.min_eq_left wf.fits
   unfold getRowsOf
@@ -173,27 +199,62 @@ theorem mem_sel {α β} (d : Dev α β) (w : Nat) (c : DCon α) :
     c ∈ sel d w ↔ c ∈ d.cons.take (min d.nacon d.cons.length) ∧ c.worldid = w := by
   simp [sel, List.mem_filter]
 
-/-- the `i`-th selected contact's `k`-th row index sits at position `adrOrdered[i] + k` of the untruncated index list -/
+/-- the `i`-th selected contact, if active, has its `k`-th row index at position `adrOrdered[i] + k` of the untruncated list -/
 theorem idx_at_ordered_aux {α} (pyr : Bool) (s : List (DCon α)) (P : List Int) (i k : Nat) (c : DCon α) (a : Nat)
-    (hfull : ∀ c ∈ s, (blk pyr c).length = ndim pyr c.dim)
-    (hi : s[i]? = some c) (ha : (adrOrdered pyr P.length s)[i]? = some a) (hk : k < ndim pyr c.dim) :
-    (P ++ s.flatMap (blk pyr))[a + k]? = (blk pyr c)[k]? := by
+    (hfull : ∀ c ∈ s, inactive c = false → ndim pyr c.dim ≤ c.adr.length)
+    (hi : s[i]? = some c) (ha : (adrOrdered pyr P.length s)[i]? = some (Int.ofNat a)) (hk : k < ndim pyr c.dim) :
+    (P ++ s.flatMap (blk pyr))[a + k]? = c.adr[k]? := by
   induction s generalizing P i with
+  | nil => simp at hi
+  | cons c0 cs ih =>
+    by_cases h0 : inactive c0 = true
+    · have hb : blk pyr c0 = [] := by simp [blk, h0]
+      cases i with
+      | zero =>
+        simp only [adrOrdered, h0, if_true, List.getElem?_cons_zero, Option.some.injEq] at ha
+        exact absurd ha (by simp)
+      | succ i =>
+        simp only [List.getElem?_cons_succ] at hi
+        simp only [adrOrdered, h0, if_true, List.getElem?_cons_succ] at ha
+        rw [List.flatMap_cons, hb, List.nil_append]
+        exact ih P i (fun c hc => hfull c (List.mem_cons_of_mem _ hc)) hi ha
+    · have h0' : inactive c0 = false := by simpa using h0
+      have hlen : (blk pyr c0).length = ndim pyr c0.dim := by
+        simp only [blk, h0', Bool.false_eq_true, if_false, List.length_take]
+        exact Nat.min_eq_left (hfull c0 (List.mem_cons_self) h0')
+      cases i with
+      | zero =>
+        simp only [List.getElem?_cons_zero, Option.some.injEq] at hi
+        simp only [adrOrdered, h0', Bool.false_eq_true, if_false, List.getElem?_cons_zero, Option.some.injEq] at ha
+        subst hi
+        have ha' : P.length = a := Int.ofNat.inj ha
+        subst ha'
+        have hk' : k < (blk pyr c0).length := by rw [hlen]; exact hk
+        rw [List.flatMap_cons, List.getElem?_append_right (by omega), Nat.add_sub_cancel_left, List.getElem?_append_left hk']
+        simp only [blk, h0', Bool.false_eq_true, if_false, List.getElem?_take_of_lt hk]
+      | succ i =>
+        simp only [List.getElem?_cons_succ] at hi
+        simp only [adrOrdered, h0', Bool.false_eq_true, if_false, List.getElem?_cons_succ] at ha
+        rw [List.flatMap_cons, ← List.append_assoc]
+        exact ih (P ++ blk pyr c0) i (fun c hc => hfull c (List.mem_cons_of_mem _ hc)) hi (by rw [List.length_append, hlen]; exact ha)
+
+/-- an inactive selected contact is exported with address -1 -/
+theorem adrOrdered_inactive {α} (pyr : Bool) (s : List (DCon α)) (a i : Nat) (c : DCon α)
+    (hi : s[i]? = some c) (hc : inactive c = true) : (adrOrdered pyr a s)[i]? = some (-1) := by
+  induction s generalizing a i with
   | nil => simp at hi
   | cons c0 cs ih =>
     cases i with
     | zero =>
       simp only [List.getElem?_cons_zero, Option.some.injEq] at hi
-      simp only [adrOrdered, List.getElem?_cons_zero, Option.some.injEq] at ha
-      subst hi; subst ha
-      have hk' : k < (blk pyr c0).length := by rw [hfull c0 (List.mem_cons_self)]; exact hk
-      rw [List.flatMap_cons, List.getElem?_append_right (by omega), Nat.add_sub_cancel_left, List.getElem?_append_left hk']
+      subst hi
+      simp [adrOrdered, hc]
     | succ i =>
       simp only [List.getElem?_cons_succ] at hi
-      simp only [adrOrdered, List.getElem?_cons_succ] at ha
-      rw [List.flatMap_cons, ← List.append_assoc]
-      have hlen := hfull c0 (List.mem_cons_self)
-      exact ih (P ++ blk pyr c0) i (fun c hc => hfull c (List.mem_cons_of_mem _ hc)) hi (by rw [List.length_append, hlen]; exact ha)
+      by_cases h0 : inactive c0 = true
+      · simp only [adrOrdered, h0, if_true, List.getElem?_cons_succ]; exact ih _ i hi
+      · have h0' : inactive c0 = false := by simpa using h0
+        simp only [adrOrdered, h0', Bool.false_eq_true, if_false, List.getElem?_cons_succ]; exact ih _ i hi
 
 theorem pyGetAll_perm {β} (l : List β) {i1 i2 : List Int} (hp : i1.Perm i2) {r1 : List β} (h1 : pyGetAll l i1 = some r1) :
     ∃ r2, pyGetAll l i2 = some r2 ∧ r1.Perm r2 := by
@@ -225,15 +286,19 @@ theorem pyGetAll_perm {β} (l : List β) {i1 i2 : List Int} (hp : i1.Perm i2) {r
 theorem length_adrOrdered {α} (pyr : Bool) (a : Nat) (s : List (DCon α)) : (adrOrdered pyr a s).length = s.length := by
   induction s generalizing a with
   | nil => rfl
-  | cons c cs ih => simp [adrOrdered, ih]
+  | cons c cs ih => by_cases h : inactive c = true <;> simp [adrOrdered, h, ih]
 
 theorem getCons_adr {α β} (pyr : Bool) (d : Dev α β) (w : Nat) :
-    (getCons pyr d w).map (·.adr) = (adrOrdered pyr (neflOf d w) (sel d w)).map Int.ofNat := by
+    (getCons pyr d w).map (·.adr) = adrOrdered pyr (neflOf d w) (sel d w) := by
   unfold getCons
   generalize neflOf d w = a
   induction (sel d w) generalizing a with
   | nil => simp [adrOrdered]
-  | cons c cs ih => simp only [adrOrdered, List.zipWith_cons_cons, List.map_cons, ih]
+  | cons c cs ih =>
+    by_cases h : inactive c = true
+    · simp only [adrOrdered, h, if_true, List.zipWith_cons_cons, List.map_cons, ih]
+    · have h' : inactive c = false := by simpa using h
+      simp only [adrOrdered, h', Bool.false_eq_true, if_false, List.zipWith_cons_cons, List.map_cons, ih]
 
 theorem getCons_pay {α β} (pyr : Bool) (d : Dev α β) (w : Nat) :
     (getCons pyr d w).map (fun c => (c.dim, c.pay)) = (sel d w).map (fun c => (c.dim, c.pay)) := by
@@ -241,7 +306,11 @@ theorem getCons_pay {α β} (pyr : Bool) (d : Dev α β) (w : Nat) :
   generalize neflOf d w = a
   induction (sel d w) generalizing a with
   | nil => simp [adrOrdered]
-  | cons c cs ih => simp only [adrOrdered, List.zipWith_cons_cons, List.map_cons, ih]
+  | cons c cs ih =>
+    by_cases h : inactive c = true
+    · simp only [adrOrdered, h, if_true, List.zipWith_cons_cons, List.map_cons, ih]
+    · have h' : inactive c = false := by simpa using h
+      simp only [adrOrdered, h', Bool.false_eq_true, if_false, List.zipWith_cons_cons, List.map_cons, ih]
 
 theorem efcIdxFull_nonempty {α β} (pyr : Bool) (njmax : Nat) (d : Dev α β) (w : Nat) (hne : 0 < (sel d w).length) :
     efcIdxFull pyr njmax d w = arange (neflOf d w) ++ (sel d w).flatMap (blk pyr) := by
@@ -280,15 +349,12 @@ theorem efl_prefix_aux {α β} (pyr : Bool) (njmax : Nat) (d : Dev α β) (w : N
 
 theorem adr_remap_aux {α β} (pyr : Bool) (njmax : Nat) (d : Dev α β) (w i k a : Nat) (c : DCon α)
     (hne : 0 < (sel d w).length)
-    (hfull : ∀ c ∈ sel d w, ndim pyr c.dim ≤ c.adr.length)
-    (hi : (sel d w)[i]? = some c) (ha : (adrOrdered pyr (neflOf d w) (sel d w))[i]? = some a)
+    (hfull : ∀ c ∈ sel d w, inactive c = false → ndim pyr c.dim ≤ c.adr.length)
+    (hi : (sel d w)[i]? = some c) (ha : (adrOrdered pyr (neflOf d w) (sel d w))[i]? = some (Int.ofNat a))
     (hk : k < ndim pyr c.dim) (hlt : a + k < nefcOf d njmax w) :
     (efcIdx pyr njmax d w)[a + k]? = c.adr[k]? := by
   unfold efcIdx
   rw [List.getElem?_take_of_lt hlt, efcIdxFull_nonempty pyr njmax d w hne]
-  have hf : ∀ c ∈ sel d w, (blk pyr c).length = ndim pyr c.dim := by
-    intro c hc; simp only [blk, List.length_take]; exact Nat.min_eq_left (hfull c hc)
-  rw [idx_at_ordered_aux pyr (sel d w) (arange (neflOf d w)) i k c a hf hi (by rw [length_arange]; exact ha) hk]
-  simp only [blk, List.getElem?_take_of_lt hk]
+  exact idx_at_ordered_aux pyr (sel d w) (arange (neflOf d w)) i k c a hfull hi (by rw [length_arange]; exact ha) hk
 
 end Mjw.IoOrder
